@@ -24,13 +24,14 @@ import (
 // identifier from the echo request captured on the connection and injects the
 // scripted frames through Session.Parse.
 
-const c19Rule = "batches of concurrent scenarios; a scenario = 1..8 concurrent Ping/Ping6 calls, each with a script: matching reply at once | matching reply twice (replies carried in IP headers with DF, options, TOS/identification, traffic class/flow label, with 0 / 5 / 1000 bytes of echo data) | reply with a foreign identifier | echo REQUEST with the ping's identifier | another ICMP type (incl. the other family's reply type) with the identifier at the same offset | truncated ICMP (Parse error) | matching reply only after the time-out | nothing | send failure (wrong address family). oracle: nil <=> a matching reply was injected before the deadline (1 s time-outs for the positive scripts, 200 ms for the negative ones, only lower bounds on latency); identifiers distinct; no waiter left once every call has returned. non-trivial = scenario with >= 2 concurrent pings and >= 1 non-matching reply; distinct by hash of the scenario"
+const c19Rule = "batches of concurrent scenarios; a scenario = 1..8 concurrent Ping/Ping6 calls, each with a script: matching reply at once | matching reply twice (replies carried in IP headers with DF, options, TOS/identification, traffic class/flow label, with 0 / 5 / 1000 bytes of echo data) | reply with a foreign identifier | echo REQUEST with the ping's identifier | another ICMP type (incl. the other family's reply type) with the identifier at the same offset | truncated ICMP (Parse error) | matching reply 400 ms later (while other pings of the scenario time out) | matching reply only after the time-out | nothing | send failure (wrong address family). oracle: nil <=> a matching reply was injected before the deadline (1 s time-outs for the positive scripts, 200 ms for the negative ones, and the arguments 0 and 11 s that are documented to mean 2 s; only lower bounds on latency); identifiers distinct; no waiter left once every call has returned. non-trivial = scenario with >= 2 concurrent pings and >= 1 non-matching reply; distinct by hash of the scenario"
 
 type c19Ping struct {
 	V6     bool   `json:"v6"`
 	Script string `json:"script"`        // early twice foreign request othertype truncated late none badfamily
 	Hdr    int    `json:"hdr,omitempty"` // shape of the carrying IP header / echo data of the injected reply (c19Frame)
 	Alt    int    `json:"alt,omitempty"` // othertype: which ICMP type carries the identifier
+	TO     int    `json:"to,omitempty"`  // time-out argument: 0 = the script's own, 1 = zero, 2 = 11 s (both documented to mean 2 s)
 }
 
 type c19Scenario struct {
@@ -63,11 +64,30 @@ func c19RunScenario(sc c19Scenario) (res []c19Result, problems []string, inconcl
 		a[15] = byte(30 + i)
 		return netip.AddrFrom16(a)
 	}
-	timeout := func(p c19Ping) time.Duration {
-		if p.Script == "early" || p.Script == "twice" {
+	// arg is the value handed to Ping, timeout the time-out that value means
+	arg := func(p c19Ping) time.Duration {
+		switch p.TO {
+		case 1:
+			return 0
+		case 2:
+			return 11 * time.Second
+		}
+		if p.Script == "early" || p.Script == "twice" || p.Script == "delayed" {
 			return time.Second
 		}
 		return 200 * time.Millisecond
+	}
+	timeout := func(p c19Ping) time.Duration {
+		if a := arg(p); a > 0 && a <= 10*time.Second {
+			return a
+		}
+		return 2 * time.Second
+	}
+	longest := time.Second
+	for _, p := range sc.Pings {
+		if timeout(p) > longest {
+			longest = timeout(p)
+		}
 	}
 	var wg sync.WaitGroup
 	var mu sync.Mutex
@@ -84,13 +104,13 @@ func c19RunScenario(sc c19Scenario) (res []c19Result, problems []string, inconcl
 			pan, _, _ := drv.Catch(func() {
 				switch {
 				case p.Script == "badfamily" && p.V6:
-					err = s.Ping6(packet.Addr{MAC: hw(w.HostMAC), IP: w.HostLLA}, packet.Addr{MAC: hw(w.Clients[0]), IP: dst4(i)}, timeout(p))
+					err = s.Ping6(packet.Addr{MAC: hw(w.HostMAC), IP: w.HostLLA}, packet.Addr{MAC: hw(w.Clients[0]), IP: dst4(i)}, arg(p))
 				case p.Script == "badfamily":
-					err = s.Ping(packet.Addr{MAC: hw(w.Clients[0]), IP: dst6(i)}, timeout(p))
+					err = s.Ping(packet.Addr{MAC: hw(w.Clients[0]), IP: dst6(i)}, arg(p))
 				case p.V6:
-					err = s.Ping6(packet.Addr{MAC: hw(w.HostMAC), IP: w.HostLLA}, packet.Addr{MAC: hw(w.Clients[0]), IP: dst6(i)}, timeout(p))
+					err = s.Ping6(packet.Addr{MAC: hw(w.HostMAC), IP: w.HostLLA}, packet.Addr{MAC: hw(w.Clients[0]), IP: dst6(i)}, arg(p))
 				default:
-					err = s.Ping(packet.Addr{MAC: hw(w.Clients[0]), IP: dst4(i)}, timeout(p))
+					err = s.Ping(packet.Addr{MAC: hw(w.Clients[0]), IP: dst4(i)}, arg(p))
 				}
 			})
 			mu.Lock()
@@ -119,7 +139,8 @@ func c19RunScenario(sc c19Scenario) (res []c19Result, problems []string, inconcl
 		}
 	}
 	pendingLate := map[int]time.Time{}
-	deadline := time.Now().Add(1600 * time.Millisecond)
+	pendingDelayed := map[int]time.Time{}
+	deadline := time.Now().Add(longest + 600*time.Millisecond)
 	allDone := func() bool {
 		mu.Lock()
 		defer mu.Unlock()
@@ -130,7 +151,7 @@ func c19RunScenario(sc c19Scenario) (res []c19Result, problems []string, inconcl
 		}
 		return true
 	}
-	for time.Now().Before(deadline) && !(allDone() && len(pendingLate) == 0) {
+	for time.Now().Before(deadline) && !(allDone() && len(pendingLate) == 0 && len(pendingDelayed) == 0) {
 		for _, f := range conn.Take() {
 			d := ref.Decode(f.B)
 			if (d.PayloadID != ref.PICMP4 && d.PayloadID != ref.PICMP6) || d.OffPayload+8 > len(f.B) {
@@ -176,8 +197,28 @@ func c19RunScenario(sc c19Scenario) (res []c19Result, problems []string, inconcl
 				inject(p.V6, request, id, 0)
 			case "truncated":
 				inject(p.V6, reply, id, 8) // cut into the ICMP header: fewer than 8 ICMP bytes remain
+			case "delayed": // the matching reply comes 400 ms after the request: other pings of the scenario time out meanwhile
+				pendingDelayed[idx] = st.Add(400 * time.Millisecond)
+				mu.Lock()
+				res[idx].injected = 0
+				mu.Unlock()
 			case "late":
 				pendingLate[idx] = st.Add(timeout(p) + 100*time.Millisecond)
+			}
+		}
+		for idx, at := range pendingDelayed {
+			if time.Now().After(at) {
+				p := sc.Pings[idx]
+				reply := byte(0)
+				if p.V6 {
+					reply = 129
+				}
+				mu.Lock()
+				res[idx].injected = time.Since(start[idx])
+				id := res[idx].id
+				mu.Unlock()
+				inject(p.V6, reply, uint16(id), 0, p.Hdr)
+				delete(pendingDelayed, idx)
 			}
 		}
 		for idx, at := range pendingLate {
@@ -217,8 +258,8 @@ func c19RunScenario(sc c19Scenario) (res []c19Result, problems []string, inconcl
 				problems = append(problems, fmt.Sprintf("c19-badfamily-accepted: ping %d with a destination of the wrong address family returned nil", i))
 			}
 			continue
-		case "early", "twice":
-			if r.id < 0 || r.injected > to-300*time.Millisecond {
+		case "early", "twice", "delayed":
+			if r.id < 0 || r.injected == 0 || r.injected > to-300*time.Millisecond {
 				inconclusive = true // the machine was too slow to play the script in time: no verdict
 				continue
 			}
@@ -362,11 +403,11 @@ func TestC19(t *testing.T) {
 		for i := rapid.IntRange(8, 24).Draw(t, "nscenarios"); i > 0; i-- {
 			var sc c19Scenario
 			for k := rapid.IntRange(1, 8).Draw(t, "npings"); k > 0; k-- {
-				script := rapid.SampledFrom([]string{"early", "early", "early", "twice", "foreign", "request", "othertype", "othertype", "truncated", "late", "none"}).Draw(t, "script")
+				script := rapid.SampledFrom([]string{"early", "early", "early", "twice", "delayed", "delayed", "foreign", "request", "othertype", "othertype", "truncated", "late", "none"}).Draw(t, "script")
 				if rapid.IntRange(0, 19).Draw(t, "bad") == 0 {
 					script = "badfamily"
 				}
-				sc.Pings = append(sc.Pings, c19Ping{V6: rapid.Bool().Draw(t, "v6"), Script: script, Hdr: rapid.SampledFrom([]int{0, 0, 1, 2, 3, 4, 5, 6}).Draw(t, "hdr"), Alt: rapid.IntRange(0, 5).Draw(t, "alt")})
+				sc.Pings = append(sc.Pings, c19Ping{V6: rapid.Bool().Draw(t, "v6"), Script: script, Hdr: rapid.SampledFrom([]int{0, 0, 1, 2, 3, 4, 5, 6}).Draw(t, "hdr"), Alt: rapid.IntRange(0, 5).Draw(t, "alt"), TO: rapid.SampledFrom([]int{0, 0, 0, 0, 1, 2}).Draw(t, "to")})
 			}
 			b.Scenarios = append(b.Scenarios, sc)
 		}
